@@ -412,6 +412,11 @@ class Language(object):
             if token == "\n":
                 # a line break is just whitespace inside a type
                 continue
+            if token == "#":
+                # a comment in an annotated expression runs to the line's end
+                while (token := next(tokens, None)) and token != "\n":
+                    pass
+                continue
             if token == "(":
                 calls.append(isinstance(stack[-1], (TypeOperator, TypeAlias)))
                 stack.append(None)
